@@ -223,8 +223,6 @@ Definition respK3 : rv :=
 
 (** leaves of the decoded value and the selected leaves, fragment labels compared up to the
     underscores appended to a clashing field name *)
-Fixpoint strip_us_rev (r : bytes) : bytes :=
-  match r with c :: r' => if (c =? 95)%N then strip_us_rev r' else r | [] => [] end.
 Definition norm_step (s : pstep) : pstep := match s with PFrag f => PFrag (rev (strip_us_rev (rev f))) | _ => s end.
 Definition norm_pl (pl : path * leaf) : path * leaf := (map norm_step (fst pl), snd pl).
 Definition leaves_agree_norm (p : program) (S : schema) (o : opdef) (opname : string) (w : rv) : bool :=
